@@ -372,6 +372,47 @@ func verifC15_DeliveryAfterTakeover() {
 	verifCover("delivered-after-takeover")
 }
 
+// verifC15_ResendOnRestoredSession: QoS1 at-least-once for a session that was restored from
+// storage (reconnect with cleanSession=false on a broker that does not have the session in
+// memory) as well as for a fresh one: the unacknowledged message is retransmitted on the resend
+// timer until it is acknowledged, and not afterwards.
+func verifC15_ResendOnRestoredSession() {
+	b := vC16Broker(0)
+	vResendTick = make(chan time.Time, 4)
+	var s *Session
+	if verifBool("sessionRestoredFromStorage") {
+		vDB["stored-c"] = &SessionInfo{EGName: "eg", Name: "mqtt", ClientID: "c", Topics: map[string]int{"t/1": 1}}
+		vStore.kv[sessionStoreKey("c")] = "stored-c"
+		s = b.sessMgr.get("c")
+		verifCover("restored-from-storage")
+	} else {
+		connect := packets.NewControlPacket(packets.Connect).(*packets.ConnectPacket)
+		connect.ClientIdentifier = "c"
+		s = b.sessMgr.newSessionFromConn(connect)
+	}
+	verifAssert(s != nil, "session-available")
+	cl := vClient(b, "c", 4)
+	cl.session = s
+	b.clients["c"] = cl
+	s.publish(nil, "t/1", []byte{9}, QoS1)
+	verifAssert(len(cl.writeCh) == 1, "first-transmission")
+	first := (<-cl.writeCh).(*packets.PublishPacket)
+	vResendTick <- time.Time{}
+	verifQuiesce()
+	verifAssert(len(cl.writeCh) == 1, "unacknowledged-message-retransmitted-on-the-resend-timer")
+	if len(cl.writeCh) == 1 {
+		again := (<-cl.writeCh).(*packets.PublishPacket)
+		verifAssert(again.MessageID == first.MessageID, "retransmission-keeps-the-packet-id")
+	}
+	ack := packets.NewControlPacket(packets.Puback).(*packets.PubackPacket)
+	ack.MessageID = first.MessageID
+	verifAssert(cl.processPacket(ack) == nil, "puback-accepted")
+	vResendTick <- time.Time{}
+	verifQuiesce()
+	verifAssert(len(cl.writeCh) == 0, "acknowledged-message-not-retransmitted")
+	s.close()
+}
+
 // ---- persistence of session changes ----------------------------------------------------------
 
 var vEncodeSeq int
